@@ -43,7 +43,7 @@ pub enum SchedSpec {
 
 enum Sched {
   Random(Rng),
-  Pct { prio: Vec<u32>, change: Vec<u64>, low: u32 },
+  Pct { prio: Vec<u32>, change: Vec<u64>, low: u32, rng: Rng },
   Seq { rng: Rng, den: usize },
   Explicit { list: Vec<u16>, pos: usize },
 }
@@ -88,6 +88,10 @@ struct TSlot {
   fut: Option<FutureObj<'static, ()>>,
   queued: bool,
   done: bool,
+  /// a worker is polling it right now
+  polling: bool,
+  /// woken while being polled: queue it again when the poll returns Pending
+  rewake: bool,
 }
 
 struct TState {
@@ -109,6 +113,7 @@ struct TState {
   multi_choice: u64,
   window_hits: u64,
   driver_done: bool,
+  users_done_at: Option<u64>,
 }
 
 pub struct TSim {
@@ -169,7 +174,7 @@ impl TSim {
               prio.swap(i, j);
             }
             let change = (0..*d).map(|_| 1 + rng.below((*k).max(1) as usize) as u64).collect();
-            Sched::Pct { prio, change, low: *d as u32 }
+            Sched::Pct { prio, change, low: *d as u32, rng }
           }
         }
       }
@@ -197,6 +202,7 @@ impl TSim {
         multi_choice: 0,
         window_hits: 0,
         driver_done: false,
+        users_done_at: None,
       }),
       cvs: (0..n).map(|_| Condvar::new()).collect(),
       driver_cv: Condvar::new(),
@@ -217,14 +223,16 @@ impl TSim {
   pub fn spawn_shared(&self, fut: FutureObj<'static, ()>) {
     let mut st = self.st.lock().unwrap();
     let id = st.slots.len();
-    st.slots.push(TSlot { fut: Some(fut), queued: true, done: false });
+    st.slots.push(TSlot { fut: Some(fut), queued: true, done: false, polling: false, rewake: false });
     st.ready.push_back(id);
   }
 
   fn absorb_woken(&self, st: &mut TState) {
     for id in self.shared.take_woken() {
       if let Some(s) = st.slots.get_mut(id) {
-        if !s.done && !s.queued {
+        if s.polling {
+          s.rewake = true;
+        } else if !s.done && !s.queued {
           s.queued = true;
           st.ready.push_back(id);
         }
@@ -251,7 +259,7 @@ impl TSim {
 
   /// Draw one decision among `n > 1` options. `cur` = position of the running
   /// thread in the option list, if it is an option.
-  fn decide(&self, st: &mut TState, opts: &[usize], cur: Option<usize>) -> usize {
+  fn decide(&self, st: &mut TState, opts: &[usize], cur: Option<usize>, threads: bool) -> usize {
     let n = opts.len();
     st.multi_choice += 1;
     let steps = st.steps;
@@ -270,7 +278,8 @@ impl TSim {
           cur.unwrap_or(0)
         }
       }
-      Sched::Pct { prio, change, low } => {
+      Sched::Pct { rng, .. } if !threads => rng.below(n),
+      Sched::Pct { prio, change, low, .. } => {
         if let Some(c) = cur {
           if change.contains(&steps) && *low > 0 {
             // priority change point: the running thread drops below all others
@@ -299,7 +308,7 @@ impl TSim {
       let e = self.eligible(st);
       if !e.is_empty() {
         let cur = me.and_then(|m| e.iter().position(|x| *x == m));
-        let idx = if e.len() == 1 { 0 } else { self.decide(st, &e, cur) };
+        let idx = if e.len() == 1 { 0 } else { self.decide(st, &e, cur, true) };
         let next = e[idx];
         if let (Some(m), Some(_)) = (me, cur) {
           if next != m {
@@ -314,9 +323,18 @@ impl TSim {
       }
       // nobody can run: let virtual time pass, then shut the pool down, else
       // it is a deadlock / lost wakeup
+      let users_done = st.threads.iter().all(|t| t.is_worker || t.status == TStatus::Finished);
+      if users_done && st.users_done_at.is_none() {
+        st.users_done_at = Some(self.shared.now());
+      }
       if let Some(d) = self.shared.next_deadline() {
-        self.shared.advance_to(d.max(self.shared.now()));
-        continue;
+        // once every caller thread has returned, let at most 100 virtual ms
+        // pass for the pool to drain (periodic tasks may never end)
+        let horizon = st.users_done_at.map_or(u64::MAX, |t| t + 100 * crate::world::MS);
+        if d <= horizon {
+          self.shared.advance_to(d.max(self.shared.now()));
+          continue;
+        }
       }
       if !st.shutdown
         && st.threads.iter().all(|t| t.is_worker || t.status == TStatus::Finished)
@@ -485,17 +503,32 @@ impl TSim {
       }
       let n = st.ready.len();
       let opts: Vec<usize> = (0..n).collect();
-      let k = if n == 1 { 0 } else { self.decide(&mut st, &opts, None) };
+      let k = if n == 1 { 0 } else { self.decide(&mut st, &opts, None, false) };
       let id = st.ready.remove(k).unwrap();
       st.slots[id].queued = false;
-      let fut = st.slots[id].fut.take().expect("task polled by two workers");
+      let Some(fut) = st.slots[id].fut.take() else {
+        // finished in the meantime
+        return true;
+      };
+      st.slots[id].polling = true;
+      st.slots[id].rewake = false;
       (id, fut)
     };
     let waker = Waker::from(Arc::new(TaskWaker { id, shared: self.shared.clone() }));
     let mut cx = Context::from_waker(&waker);
     self.shared.stats.tasks_polled.fetch_add(1, SeqCst);
-    let r = Pin::new(&mut fut).poll(&mut cx);
+    let r = match catch_unwind(AssertUnwindSafe(|| Pin::new(&mut fut).poll(&mut cx))) {
+      Ok(r) => r,
+      Err(p) => {
+        let mut st = self.st.lock().unwrap();
+        st.slots[id].polling = false;
+        st.slots[id].done = true;
+        drop(st);
+        std::panic::resume_unwind(p);
+      }
+    };
     let mut st = self.st.lock().unwrap();
+    st.slots[id].polling = false;
     match r {
       Poll::Ready(()) => {
         st.slots[id].done = true;
@@ -504,6 +537,11 @@ impl TSim {
       }
       Poll::Pending => {
         st.slots[id].fut = Some(fut);
+        if st.slots[id].rewake && !st.slots[id].queued {
+          st.slots[id].rewake = false;
+          st.slots[id].queued = true;
+          st.ready.push_back(id);
+        }
       }
     }
     true
@@ -559,8 +597,25 @@ impl TSim {
         }
         None => {}
       }
+      let mut last_steps = st.steps;
       while !(st.abort || st.threads.iter().all(|t| t.status == TStatus::Finished)) {
-        st = self.driver_cv.wait(st).unwrap();
+        let (g, to) = self.driver_cv.wait_timeout(st, std::time::Duration::from_secs(10)).unwrap();
+        st = g;
+        if to.timed_out() {
+          if st.steps == last_steps {
+            // the simulator itself is stuck: a harness error, never a violation
+            eprintln!(
+              "HARNESS: thread simulation stuck: current={:?} steps={} ready={:?} shutdown={} threads={:?}",
+              st.current,
+              st.steps,
+              st.ready,
+              st.shutdown,
+              st.threads.iter().map(|t| format!("{:?}@{}", t.status, t.last_site)).collect::<Vec<_>>()
+            );
+            std::process::exit(2);
+          }
+          last_steps = st.steps;
+        }
       }
       if st.abort {
         for cv in &self.cvs {
